@@ -203,6 +203,18 @@ def round_trip(spec, opts, stage_name, op, tmpdir, col, label):
                     out.append(("C16:continued-run-of-loaded-project-differs:%s" % (d[0][0] if d else "?"), {"stage": stage_name, "rule": rule, "first_difference(path, original, loaded)": d}))
             except Exception as e:
                 out.append(("C16:continuing-the-loaded-project-raised:%s" % type(e).__name__, {"stage": stage_name, "rule": rule, "error": repr(e)}))
+    # the file is read once more after the copies above were continued: a later reader of the same, unchanged file sees what the file says
+    if stage_kind == "paused" and not bad:
+        try:
+            p4 = load(f1)
+            p4.write_simple_json(f2)
+            j4 = _num(json.load(open(f2)))
+            col.checks["c16.second-reader"] += 1
+            if j4 != j1:
+                d = first_diff(json.dumps(j1, sort_keys=True), json.dumps(j4, sort_keys=True))
+                out.append(("C16:later-reader-of-the-same-file-sees-something-else", {"stage": stage_name, "file_bytes": os.path.getsize(f1), "first_difference(path, file, re-export of the later reader)": d}))
+        except Exception as e:
+            out.append(("C16:later-read-of-the-same-file-raised:%s" % type(e).__name__, {"stage": stage_name, "error": repr(e)}))
     # re-simulation
     if uses_only_saved_settings(spec) and not bad:
         kw = runner.sim_kwargs(opts)
@@ -224,6 +236,9 @@ def setup_subprojects(m, spec):
         if isinstance(t, BaseSubProjectTask) and t.file_path and spec.get("subproject_setup"):
             t.set_all_attributes_from_json(remove_absence_time_list=False)
             t.set_work_amount_progress_of_unit_step_time(m.project.unit_timedelta)
+            if spec.get("sub_file_now"):
+                # the sub-project was revised after this task had been configured: the file at its path now holds another (longer) result
+                t.file_path = spec["sub_file_now"]
 
 
 def models(tier, tmpdir):
@@ -280,6 +295,13 @@ def models(tier, tmpdir):
            "teams": [{"name": "TM0", "targets": [0], "workers": [{"name": "W0", "skills": {"T0": 1.0}, "cost": 1.0}]}]}
     out.append((dict(par, subproject_setup=True), {"rule": "TSLACK", "max_time": 12}, "subproject-configured"))
     out.append((dict(par), {"rule": "TSLACK", "max_time": 12}, "subproject-unconfigured"))
+    sub2 = F.with_teams({"tasks": [{"name": "T0", "work": 5.0}], "links": []}, "POOL1")
+    ms2 = S.build(sub2)
+    ms2.project.simulate(max_time=20, absence_time_list=[])
+    path2 = os.path.join(tmpdir, "sub-revised.json")
+    ms2.project.write_simple_json(path2)
+    out.append((dict(par, subproject_setup=True, sub_file_now=path2), {"rule": "TSLACK", "max_time": 12}, "subproject-configured-then-its-file-revised"))
+    out.append((F.big_checkpoint_spec(), {"rule": "TSLACK", "max_time": 340}, "big-checkpoint"))
     return out
 
 
@@ -492,8 +514,10 @@ def run(tier, seed):
         ms = models(tier, tmpdir)
         items = []
         for sp, opts, label in ms:
-            nst = len(stage_ops(sp, opts))
-            for i in range(nst):
+            st = stage_ops(sp, opts)
+            for i in range(len(st)):
+                if label.startswith("big-") and st[i][0] not in ("never-simulated", "paused@190", "paused@5", "finished-forward"):
+                    continue  # (the megabyte-sized model takes four of its stages)
                 items.append((sp, opts, label, i))
         col = engines.fanout(items, work, seed=seed)
         audit(col, tmpdir)
